@@ -13,6 +13,7 @@ import (
 type builtinJSONParseContext struct {
 	reviver Value
 	call    FunctionCall
+	depth   int
 }
 
 func builtinJSONParse(call FunctionCall) Value {
@@ -45,6 +46,15 @@ func builtinJSONParse(call FunctionCall) Value {
 }
 
 func builtinJSONReviveWalk(ctx builtinJSONParseContext, holder *object, name string) Value {
+	// The nesting counts like calls do: a reviver that keeps putting new
+	// containers into the holder would otherwise recurse without end.
+	limit := ctx.call.runtime.stackLimit
+	if limit == 0 {
+		limit = 10000
+	}
+	if ctx.depth++; ctx.depth > limit {
+		panic(ctx.call.runtime.panicRangeError("Maximum call stack size exceeded"))
+	}
 	value := holder.get(name)
 	if obj := value.object(); obj != nil {
 		if isArray(obj) {
